@@ -288,3 +288,23 @@ func VerifC00_RaceReadWrite_BAD() {
 	_ = c.get() // unsynchronised read, possibly before the write
 	<-done
 }
+
+// A race that exists only for the LAST alternative of a choice: detection must survive backtracking.
+//
+//verif:opts race preempt=sync sched=3
+func VerifC00_RaceAfterBacktrack_BAD() {
+	c := &counter{m: map[string]int{}}
+	k := zz.Choice("k", 3)
+	var wg sync.WaitGroup
+	wg.Add(2)
+	go func() { defer wg.Done(); c.incLocked() }()
+	go func() {
+		defer wg.Done()
+		if k == 2 {
+			c.incUnlocked()
+		} else {
+			c.incLocked()
+		}
+	}()
+	wg.Wait()
+}
